@@ -113,6 +113,16 @@ InitCase ==
                        [] form = 2 -> CallN("IF", <<Bin(">", r1, zero), r2, Bin("-", zero, r1)>>)
                        [] form = 3 -> CallN("SUM", <<r1, Ref("S1", 3, 3, FALSE, FALSE), r2>>)
           IN case = Mk("repeat", WithProbe(cells, p, ast), NoNames, Probe(p))
+  \/ /\ "ref" \in Families          \* a sheet of the workbook on which NOTHING is stored (the harness writes it as an empty worksheet):
+     /\ \E t \in {2, 3}, form \in 1..5 :    \* its cells are empty cells like any other - blank, never an error
+          LET sh == SheetsL[t]
+              cells == [k \in {k \in GridKeys : k[1] = "S1"} |-> DenseCells[k]]
+              ast == CASE form = 1 -> Ref(sh, 2, 2, FALSE, FALSE)
+                       [] form = 2 -> Bin("+", Ref(sh, 2, 2, FALSE, FALSE), RelRef(1, 1))
+                       [] form = 3 -> CallN("COUNTA", <<Ref(sh, 2, 2, FALSE, FALSE), RelRef(1, 1)>>)
+                       [] form = 4 -> Bin("+", CallN("SUM", <<Rng(sh, 1, 1, 2, 2), RelRef(2, 1)>>), CallN("COUNTA", <<Rng(sh, 1, 1, 2, 2)>>))
+                       [] form = 5 -> CallN("IF", <<CallN("ISBLANK", <<Ref(sh, 1, 1, TRUE, TRUE)>>), RelRef(3, 3), NumLit(<<48>>)>>)
+          IN case = Mk("empty-sheet", WithProbe(cells, 1, ast), NoNames, Probe(1))
   \/ /\ "chain" \in Families
      /\ \E perm \in Perms, pr \in {<<1, 5, 1>>, <<2, 5, 1>>, <<3, 5, 1>>, <<1, 5, 2>>, <<2, 5, 3>>} :
           case = Mk("chain", ChainCells(perm), NoNames, <<perm[pr[1]], pr[2], pr[3]>>)
@@ -163,6 +173,15 @@ InitCase ==
                        [] use = 2 -> Bin("+", Bin("*", NameRef("myname"), NumLit(<<50>>)), RelRef(1, 1))
                        [] use = 3 -> CallN("SUM", <<NameRef("myname"), NumLit(<<49>>)>>)
           IN case = Mk("name-cell", WithProbe(DenseCells, p, ast), nm, Probe(p))
+  \/ /\ "names" \in Families      \* a name of the same spelling that is scoped to ANOTHER sheet (the file format allows one per sheet) has no
+     /\ \E t \in 1..3, o \in 1..3, p \in 1..3, use \in 1..3 :     \* say in the formulas outside that sheet: there the name means what the workbook binds it to
+          LET nm == ("myname" :> Ref(SheetsL[t], 2, 1, TRUE, TRUE))
+              ast == CASE use = 1 -> NameRef("myname")
+                       [] use = 2 -> Bin("+", Bin("*", NameRef("myname"), NumLit(<<50>>)), RelRef(1, 1))
+                       [] use = 3 -> CallN("SUM", <<NameRef("myname"), NumLit(<<49>>)>>)
+          IN /\ o # p
+             /\ case = [kind |-> "name-scoped", cells |-> WithProbe(DenseCells, p, ast), names |-> nm, probe |-> Probe(p), pname |-> "", pre |-> <<>>,
+                        scoped |-> [owner |-> o, name |-> "myname", ref |-> Ref(SheetsL[o], 3, 3, TRUE, TRUE)]]
   \/ /\ "names" \in Families      \* the cell (a member of the range) a name stands for is SET after the formula was evaluated once
      /\ \E t \in 1..3, c \in 1..3, r \in 1..3, p \in 1..3, use \in 1..4 :
           LET tgt == <<SheetsL[t], c, r>>
